@@ -110,6 +110,8 @@ class Check(object):
         self.rule = ''
         self.assumptions = []
         self.extra_cov = {}
+        self.gen_status = None
+        self.gen_broken = None
         self.known = [k for k in load_known() if k['property'] == pid]
         os.makedirs(SCRATCH_ROOT, exist_ok=True)
         self.scratch = tempfile.mkdtemp(prefix='%s-%d-' % (pid, os.getpid()), dir=SCRATCH_ROOT)
@@ -121,13 +123,33 @@ class Check(object):
         self.obligations = obl['theorems']
         self.partial = obl.get('partial', [])
         self.proof_module = obl.get('module', 'RB.Proofs.' + self.pid)
-        # 1. build (serialised: several checks may run at once)
+        gen = obl.get('gen')
+        # 1. regenerate translated definitions from /repo's working tree, then build
+        #    (serialised: several checks may run at once)
         with open(os.path.join(SCRATCH_ROOT, 'lake.lock'), 'w') as lk:
             fcntl.flock(lk, fcntl.LOCK_EX)
+            if gen:
+                self.gen_status = regenerate(gen['specs'])
             r = sh(['lake', 'build'], cwd=LEAN, timeout=3600)
+            if r.returncode == 0 and gen and self.gen_status == 'ok':
+                rg = sh(['lake', 'build', gen['module']], cwd=LEAN, timeout=3600)
+                if rg.returncode != 0:
+                    self.gen_status = 'proof-broken: ' + (rg.stdout + rg.stderr)[-1500:]
         if r.returncode != 0:
             self.proof_failures.append('lake build failed: ' + (r.stdout + r.stderr)[-2000:])
             return
+        if gen:
+            if self.gen_status == 'ok':
+                self.obligations = self.obligations + gen['theorems']
+                obl = dict(obl, extra_imports=obl.get('extra_imports', []) + [gen['module']])
+                self.notes.append('translation tie: definitions regenerated from %s and %s rebuilt'
+                                  % (', '.join(gen['specs']), gen['module']))
+            else:
+                # not a finding by itself: the registered tie is the behavioural correspondence;
+                # the correspondence module directs extra search at the translated functions
+                self.gen_broken = self.gen_status
+                self.notes.append('translation tie NOT available for the current source (%s); theorems %s are not '
+                                  'counted; search escalated' % (self.gen_status[:300], gen['theorems']))
         # 2. grep audit over the whole lean tree (comments stripped)
         for root, _dirs, files in os.walk(LEAN):
             if '.lake' in root:
@@ -288,6 +310,7 @@ class Check(object):
             'known_findings_reproduced': sorted(known_printed),
             'exhaustive': self.exhaustive,
             'notes': self.notes,
+            'translation_tie': self.gen_status,
         }
         cov.update(self.extra_cov)
         ev = {'property_id': self.pid, 'tier': self.tier, 'seed': self.seed, 'level': 'proof',
@@ -296,6 +319,9 @@ class Check(object):
         os.makedirs(os.path.join(VERIF, 'evidence'), exist_ok=True)
         with open(os.path.join(VERIF, 'evidence', self.pid + '.json'), 'w') as f:
             json.dump(ev, f, indent=1, sort_keys=True, default=str)
+        if self.gen_broken:
+            lines.append('NOTE: property=%s translation tie unavailable for the current source; decided by the '
+                         'correspondence tie with escalated search' % self.pid)
         for l in lines:
             print(l)
         print('%s %s seed=%d: %d cases (%d distinct non-trivial), %d/%d obligations, '
@@ -309,6 +335,28 @@ class Check(object):
 
     def cleanup(self):
         shutil.rmtree(self.scratch, ignore_errors=True)
+
+
+def regenerate(specs):
+    """run tools/py2lean.py for every spec (paths relative to lean/); returns 'ok' or the reason"""
+    status = 'ok'
+    for sp in specs:
+        spec_path = os.path.join(LEAN, sp)
+        out = os.path.join(LEAN, json.load(open(spec_path))['output'])
+        os.makedirs(os.path.dirname(out), exist_ok=True)
+        tmp = out + '.new'
+        r = sh([sys.executable, os.path.join(VERIF, 'tools', 'py2lean.py'), spec_path, REPO, tmp])
+        if r.returncode != 0:
+            status = 'untranslatable: ' + (r.stdout + r.stderr).strip()[-300:]
+            if os.path.exists(tmp):
+                os.remove(tmp)
+            continue
+        new = open(tmp).read()
+        if not os.path.exists(out) or open(out).read() != new:
+            os.replace(tmp, out)
+        else:
+            os.remove(tmp)
+    return status
 
 
 def load_known():
